@@ -34,7 +34,9 @@ while i < len(args):
             txt = open(path).read()
         except Exception as e:
             txt = f"(missing: {e})"
-        cov.setdefault("sanitizer_stages", {})[name] = txt[-4000:]
+        if not isinstance(cov.get("sanitizer_stages"), dict):
+            cov["sanitizer_stages"] = {}
+        cov["sanitizer_stages"][name] = txt[-4000:]
         i += 2
     else:
         i += 1
